@@ -82,6 +82,14 @@ SUITES["seg3d"] = _seg_suite("seg3d", [1, 2, 2], "D_1x2x2", [2, 1, 3], "S_213", 
 SUITES["seg13n"] = _seg_suite("seg13n", [1, 3], "D_1x3", [1, 1], "S_11", use_scale=False,
                               sample={"quick": 400, "thorough": 4000})
 SUITES["struct4"]["seeds"] = "SeedsStruct4"
+SUITES["struct4s"] = {
+    "tla": {"N": "4", "T": "3", "Dims": "<- D_none", "Scale": "<- S_none"},
+    "cfg": {"N": 4, "T": 3, "dims": [], "scale": [], "use_scale": True, "reg_cust": False,
+            "per_axis_pos": False, "name": "struct4s"},
+    "kinds": [1, 2, 3, 4, 5, 6], "seeds": "SeedsStruct4s",
+    "depth": {"quick": 1, "thorough": 3}, "maxid": 9,
+    "design_depth": {"quick": 0, "thorough": 1}, "sample": {"quick": 400, "thorough": 20000},
+}
 # states CONSTRUCTED from a graph (ids shifted to 0-based, falsy custom edge attribute, custom node feature)
 SUITES["struct3z"] = {
     "tla": SUITES["struct3"]["tla"],
@@ -92,6 +100,14 @@ SUITES["struct3z"] = {
 }
 SUITES["seg13z"] = _seg_suite("seg13z", [1, 3], "D_1x3", [1, 1], "S_11", sample={"quick": 400, "thorough": 6000})
 SUITES["seg13z"]["cfg"]["rebuild"] = {"shift": 1, "ecust": True}
+# position stored under one attribute per axis
+SUITES["struct3p"] = {
+    "tla": SUITES["struct3"]["tla"],
+    "cfg": {"N": 3, "T": 3, "dims": [], "scale": [], "use_scale": True, "reg_cust": False, "per_axis_pos": True,
+            "name": "struct3p"},
+    "kinds": [1, 2, 3, 4, 5, 6], "depth": {"quick": 4, "thorough": 7}, "maxid": 8,
+    "design_depth": {"quick": 2, "thorough": 4},
+}
 # feature switching
 SUITES["featns"] = {
     "tla": SUITES["struct3"]["tla"],
